@@ -697,7 +697,8 @@ fn run_f<FF: Fld>(op: &str, a: &[Arg], st: &mut Stats, h: u64) -> Option<Out> {
             let (pv, k) = (ppoly::<FF>(y)?, kk.usize()?);
             operand_stats(st, "poly", &pv);
             let norm = trim(&pv);
-            st.hit(if k + 1 < norm.len() { "truncate:k<deg" } else if k + 1 == norm.len() { "truncate:k=deg" } else { "truncate:k>deg" });
+            let k1 = k as u128 + 1;
+            st.hit(if k == usize::MAX { "truncate:k=usize::MAX" } else if k1 < norm.len() as u128 { "truncate:k<deg" } else if k1 == norm.len() as u128 { "truncate:k=deg" } else { "truncate:k>deg" });
             let r = Polynomial::new(pv.clone()).truncate(k);
             let rv = r.coefficients().to_vec();
             st.hit("outcome:ok");
@@ -1619,7 +1620,7 @@ fn gen_trunc<FF: Fld>(rng: &mut Rng, thorough: bool, out: &mut Vec<String>) {
             _ => rp::<FF>(rng.below(if i % 10 == 0 { 120 } else { 14 }) as isize, rng),
         };
         let len = p.len();
-        let cands = [0usize, 1, len.saturating_sub(1), len, len + 1, 1000, deg(&p).max(0) as usize, (deg(&p) + 1) as usize];
+        let cands = [0usize, 1, len.saturating_sub(1), len, len + 1, 1000, deg(&p).max(0) as usize, (deg(&p) + 1) as usize, usize::MAX - 1, usize::MAX];
         let k = *rng.pick(&cands);
         line1n(out, if rng.coin(1, 2) { "mod_x_n" } else { "truncate" }, &p, k);
         if i % 8 == 0 {
